@@ -33,6 +33,10 @@ def valuation(k):
     return a, b, pp, fp
 
 
+def fsm2_prev(k):
+    return ((k - 1) // 144) % 3 + 1
+
+
 def prev_of(s, pp):
     if pp == 0:
         return SIG_INIT[s]
@@ -99,7 +103,7 @@ def render(prog):
         elif op == "Case":
             out.append("Case(%s)" % ",".join(repr(pat_str(p)) for p in r["ps"]))
         elif op == "FSM":
-            out.append("FSM(init=%s)" % (STATE_NAMES[r["init"]] if r["init"] else None))
+            out.append("FSM%s(init=%s)" % (r.get("f", ""), STATE_NAMES[r["init"]] if r["init"] else None))
         elif op == "State":
             out.append("State(%s)" % STATE_NAMES[r["s"]])
         elif op == "Next":
@@ -120,7 +124,7 @@ def build(prog, inp, name):
     m = Module()
     sigs = {i: Signal(SIG_SHAPES[i], init=SIG_INIT[i], name="%s_s%d" % (name, i)) for i in SIG_SHAPES}
     stack = []       # entries: [kind, construct_cm, body_cm]
-    fsm = None
+    fsms = {}
 
     def close_body(ent):
         if ent[2] is not None:
@@ -160,8 +164,8 @@ def build(prog, inp, name):
                 cm.__enter__()
                 stack[-1][2] = cm
             elif op == "FSM":
-                cm = m.FSM(init=STATE_NAMES[r["init"]] if r["init"] else None)
-                fsm = cm.__enter__()
+                cm = m.FSM(init=STATE_NAMES[r["init"]] if r["init"] else None, name="fsm%d" % r.get("f", 1))
+                fsms[r.get("f", 1)] = cm.__enter__()
                 stack.append(["fsm", cm, None])
             elif op == "State":
                 close_body(stack[-1])
@@ -181,7 +185,7 @@ def build(prog, inp, name):
                 raise ValueError(op)
         assert not stack
     b = Built()
-    b.m, b.sigs, b.fsm = m, sigs, fsm
+    b.m, b.sigs, b.fsms = m, sigs, fsms
     return b
 
 
@@ -229,12 +233,12 @@ def replay_batch(cases, nv):
     async def tb(ctx):
         # initial state: an FSM starts in its initial state
         for idx, st, b in live:
-            if b.fsm is not None and st["fsm"]["exists"]:
-                f = st["fsm"]
+            for fi, fo in b.fsms.items():
+                f = st["fsm"][fi - 1]
                 init = f["init"] if f["init"] else f["defined"][0]
-                got = ctx.get(b.fsm.state)
-                if got != b.fsm.encoding[STATE_NAMES[init]]:
-                    report(idx, st, "fsm_start", 0, expected_state=STATE_NAMES[init], actual_encoding=int(got))
+                got = ctx.get(fo.state)
+                if got != fo.encoding[STATE_NAMES[init]]:
+                    report(idx, st, "fsm_start", 0, fsm=fi, expected_state=STATE_NAMES[init], actual_encoding=int(got))
         for k in range(1, nv + 1):
             a, bv, pp, fp = valuation(k)
             ctx.set(inp.a, a)
@@ -245,14 +249,15 @@ def replay_batch(cases, nv):
                 for s in (1, 2, 3):
                     if dom[s - 1] == "sync":
                         ctx.set(b.sigs[s], prev_of(s, pp))
-                if b.fsm is not None:
-                    nm = STATE_NAMES[fp]
-                    if fp in st["fsm"]["defined"]:
-                        ctx.set(b.fsm.state, b.fsm.encoding[nm])
-                    else:
-                        skip.add(idx)
-                elif fp != 1:
-                    skip.add(idx)            # programs without FSM do not depend on the previous FSM state
+                fps = {1: fp, 2: fsm2_prev(k)}
+                for fi in (1, 2):
+                    if fi in b.fsms:
+                        if fps[fi] in st["fsm"][fi - 1]["defined"]:
+                            ctx.set(b.fsms[fi].state, b.fsms[fi].encoding[STATE_NAMES[fps[fi]]])
+                        else:
+                            skip.add(idx)
+                    elif fps[fi] != 1:
+                        skip.add(idx)        # programs without that FSM do not depend on its previous state
             for idx, st, b in live:
                 if idx in skip:
                     continue
@@ -263,11 +268,12 @@ def replay_batch(cases, nv):
                         got = ctx.get(b.sigs[s])
                         if got != exp[s - 1]:
                             report(idx, st, "comb", k, signal="s%d" % s, expected=exp[s - 1], actual=got)
-                if b.fsm is not None:
-                    for sid in st["fsm"]["defined"]:
-                        got = ctx.get(b.fsm.ongoing(STATE_NAMES[sid]))
-                        if got != int(sid == fp):
-                            report(idx, st, "fsm_ongoing", k, state=STATE_NAMES[sid], expected=int(sid == fp), actual=got)
+                fps = {1: fp, 2: fsm2_prev(k)}
+                for fi, fo in b.fsms.items():
+                    for sid in st["fsm"][fi - 1]["defined"]:
+                        got = ctx.get(fo.ongoing(STATE_NAMES[sid]))
+                        if got != int(sid == fps[fi]):
+                            report(idx, st, "fsm_ongoing", k, fsm=fi, state=STATE_NAMES[sid], expected=int(sid == fps[fi]), actual=got)
             ctx.set(cd.clk, 1)
             ctx.set(cd.clk, 0)
             for idx, st, b in live:
@@ -280,23 +286,25 @@ def replay_batch(cases, nv):
                         got = ctx.get(b.sigs[s])
                         if got != exp[s - 1]:
                             report(idx, st, "sync", k, signal="s%d" % s, expected=exp[s - 1], actual=got)
-                if b.fsm is not None:
-                    want = st["fsm"]["nextst"][k - 1]
-                    got = ctx.get(b.fsm.state)
-                    if got != b.fsm.encoding[STATE_NAMES[want]]:
-                        report(idx, st, "fsm_next", k, expected_state=STATE_NAMES[want], actual_encoding=int(got))
+                for fi, fo in b.fsms.items():
+                    want = st["fsm"][fi - 1]["nextst"][k - 1]
+                    got = ctx.get(fo.state)
+                    if got != fo.encoding[STATE_NAMES[want]]:
+                        report(idx, st, "fsm_next", k, fsm=fi, expected_state=STATE_NAMES[want], actual_encoding=int(got))
         # reset returns every FSM to its initial state
         ctx.set(cd.rst, 1)
         ctx.set(cd.clk, 1)
         ctx.set(cd.clk, 0)
         for idx, st, b in live:
             # (an FSM without any transition has no state register to reset: the value loaded above persists)
-            if b.fsm is not None and any(r["op"] == "Next" for r in st["prog"]):
-                f = st["fsm"]
+            for fi, fo in b.fsms.items():
+                f = st["fsm"][fi - 1]
+                if not f["referenced"]:
+                    continue        # no transition: no state register
                 init = f["init"] if f["init"] else f["defined"][0]
-                got = ctx.get(b.fsm.state)
-                if got != b.fsm.encoding[STATE_NAMES[init]]:
-                    report(idx, st, "fsm_reset", 0, expected_state=STATE_NAMES[init], actual_encoding=int(got))
+                got = ctx.get(fo.state)
+                if got != fo.encoding[STATE_NAMES[init]]:
+                    report(idx, st, "fsm_reset", 0, fsm=fi, expected_state=STATE_NAMES[init], actual_encoding=int(got))
 
     sim.add_testbench(tb)
     sim.run()
